@@ -110,6 +110,7 @@ func run(c *fw.Ctx) {
 	c.Cases("restart", c.N(120, 2000), func(i int, r *fw.Rand) {
 		runRestart(c, i, r)
 	})
+	c.Cases("service", c.N(40, 600), func(i int, r *fw.Rand) { runService(c, i, r) })
 }
 
 func storageCfg(dir string, cap int, period time.Duration) config.Storage {
